@@ -70,5 +70,6 @@ if rc=="1":
 json.dump(e,open(p,"w"),indent=2)
 PY
 echo "FUZZ property=$ID target=$T processes=$PROCS executions=$execs new_units=$units edges=$cov rc=$rc"
-rm -rf $WORK
+# scratch directories of the target processes (named after their pids)
+rm -rf $WORK /tmp/vfuzz-$ID-[0-9]*
 exit $rc
